@@ -39,27 +39,33 @@ def demo : B := (run {} demoEvs).1
 
 /-! ## (a) what a hand-over is -/
 
-/-- **(a)** Every output of `onPublish`, of the subscriber loop `fanout` and of
-`releaseAll` is a PUBLISH written to a connection or a callback invocation —
+/-- **(a)** Every output of `onPublish`, of its live fan-out `fanoutLive`, of the
+bare subscriber loop `fanout` and of `releaseAll` is a PUBLISH written to a connection or a callback invocation —
 never an acknowledgement, never a `closed` — and none of them touches the
 connection table, the session objects, the session store, the session
 reference counter or the subscription tree (only the retained tree and the
 packet-identifier counter may change). -/
 theorem onPublish_outputs (b : B) (m : Msg) (subs : List (Nat × Nat)) (l : List QEntry) :
     (Frame b (onPublish b m).1 ∧ ∀ o ∈ (onPublish b m).2.2.1, HandOver o) ∧
+    (Frame b (fanoutLive b m subs).1 ∧ (fanoutLive b m subs).1.topics = b.topics ∧
+      ∀ o ∈ (fanoutLive b m subs).2.2, HandOver o) ∧
     (Frame b (fanout b m subs).1 ∧ (fanout b m subs).1.topics = b.topics ∧
       ∀ o ∈ (fanout b m subs).2.2, HandOver o) ∧
     (Frame b (releaseAll b l).1 ∧ ∀ o ∈ (releaseAll b l).2, HandOver o) :=
   ⟨⟨(onPublish_frame b m).1, fun o ho => handOver_of ((onPublish_frame b m).2 o ho)⟩,
+   ⟨(fanoutLive_frame b m subs).1, (fanoutLive_frame b m subs).2.1,
+    fun o ho => handOver_of ((fanoutLive_frame b m subs).2.2 o ho)⟩,
    ⟨(fanout_frame b m subs).1, (fanout_frame b m subs).2.1,
     fun o ho => handOver_of ((fanout_frame b m subs).2.2 o ho)⟩,
    ⟨(releaseAll_frame b l).1, fun o ho => handOver_of ((releaseAll_frame b l).2 o ho)⟩⟩
 
-/-- on the demo state a retained QoS 1 publish of `t` reaches connection 1
-(RETAIN cleared) and the callback (object as is, E10) -/
+/-- on the demo state a retained QoS 1 publish of `t` reaches connection 1 and
+the in-process callback, both with RETAIN cleared; the message object has its
+flag back afterwards -/
 example : (onPublish demo ⟨{ qos := 1, retain := true, topic := [116], pktid := 7, payload := [1] }, false⟩).2.2.1 =
     [.send 1 (.publish { qos := 1, topic := [116], pktid := 7, payload := [1] }),
-     .call 1000 { qos := 1, retain := true, topic := [116], pktid := 7, payload := [1] }] := by
+     .call 1000 { qos := 1, retain := false, topic := [116], pktid := 7, payload := [1] }] ∧
+    (onPublish demo ⟨{ qos := 1, retain := true, topic := [116], pktid := 7, payload := [1] }, false⟩).2.1.p.retain = true := by
   decide
 
 /-! ## The representation invariant
@@ -256,9 +262,9 @@ theorem C02_pub2in_is_fifo (enc : Pub → List UInt8) (ackb : Nat → List UInt8
     (∀ pg, Fifo.collect ⟨q.map (proj enc ackb), pg⟩ =
         (⟨(q2Acked q).1.map (proj enc ackb), pg⟩, (q2Acked q).2.map (proj enc ackb))) ∧
     (∀ ops : List QOp,
-      (Fifo.run ⟨q.map (proj enc ackb), none⟩ (ops.map (toOp enc ackb))).1 =
-        ⟨(qrun q ops).1.map (proj enc ackb), none⟩ ∧
-      (Fifo.run ⟨q.map (proj enc ackb), none⟩ (ops.map (toOp enc ackb))).2 =
+      (Fifo.run ⟨q.map (proj enc ackb), []⟩ (ops.map (toOp enc ackb))).1 =
+        ⟨(qrun q ops).1.map (proj enc ackb), []⟩ ∧
+      (Fifo.run ⟨q.map (proj enc ackb), []⟩ (ops.map (toOp enc ackb))).2 =
         (List.zip (qrun q ops).2 ops).map (fun x => qout enc ackb x.1 x.2) ∧
       States (qrun q ops).1) :=
   ⟨fun pg p => sim_register enc ackb q pg p, fun pg id => sim_ackId enc ackb q pg id,
@@ -282,7 +288,7 @@ broker model keeps, and every `Acked` hands back the projection of the entries
 the list releases. -/
 theorem C02_pub2in_is_ackqueue (enc : Pub → List UInt8) (ackb : Nat → List UInt8) (ops : List QOp) :
     abs (Mqtt.Model.AckQueue.run init (ops.map (toOp enc ackb))).1 =
-      ⟨(qrun [] ops).1.map (proj enc ackb), none⟩ ∧
+      ⟨(qrun [] ops).1.map (proj enc ackb), []⟩ ∧
     (Mqtt.Model.AckQueue.run init (ops.map (toOp enc ackb))).2.map C13.outAbs =
       (List.zip (qrun [] ops).2 ops).map (fun x => qout enc ackb x.1 x.2) := by
   obtain ⟨h1, h2⟩ := C13.C13_refines_init (ops.map (toOp enc ackb))
